@@ -489,7 +489,14 @@ def r_wellformed(ctx, model):
                 continue
             nclasses += 1
             defined, reads = set(), {}
-            for c in mro:
+            # a mixin / template-method base reads what its subclasses provide: their class bodies and stores count too
+            family = list(mro)
+            for m2, mod2 in model.mods.items():
+                for c2 in mod2.classes:
+                    r2 = f"{m2}:{c2}"
+                    if r2 != cref and cref in model.mro(r2):
+                        family.append(r2)
+            for c in family:
                 if c.startswith("ext:"):
                     continue
                 cm, cq = c.split(":")
